@@ -140,6 +140,7 @@ type Path struct {
 	obs       []obsRec
 	lenient   bool
 	ufTable   map[string]uint64
+	pools     map[string][]Value // sync.Pool contents, keyed by pool object
 	pure      bool // speculative evaluation during if-conversion: anything that would fork or raise aborts
 }
 
@@ -199,6 +200,12 @@ func (p *Path) clone() *Path {
 		c.onceDone[k] = v
 	}
 	c.obs = append([]obsRec(nil), p.obs...)
+	if p.pools != nil {
+		c.pools = make(map[string][]Value, len(p.pools))
+		for k, v := range p.pools {
+			c.pools[k] = append([]Value(nil), v...)
+		}
+	}
 	if p.ufTable != nil {
 		c.ufTable = make(map[string]uint64, len(p.ufTable))
 		for k, v := range p.ufTable {
@@ -229,6 +236,10 @@ func (p *Path) mut(id int) *Object {
 	o := p.obj(id)
 	if o.Epoch == p.epoch {
 		return o
+	}
+	if o.Epoch == -1 && !o.Global {
+		// an object created by package initialisation is being written at run time
+		p.run.noteGlobalWrite(p, o)
 	}
 	c := o.clone(p.epoch)
 	p.heap[id] = c
